@@ -47,6 +47,60 @@ MSGS = [
     dict(raw=b'Subject: x\r\n\r\n', flags=[b'\\Seen'], idate=None,
          d=date(2023, 11, 14), sent=None),
 ]
+
+
+def _mp(boundary, *parts, sub=b'mixed', extra=b''):
+    """A multipart entity (headers + body) from complete sub-entities."""
+    out = b'Content-Type: multipart/' + sub + b'; boundary="' + boundary + \
+        b'"\r\n' + extra + b'\r\n'
+    for part in parts:
+        out += b'--' + boundary + b'\r\n' + part + b'\r\n'
+    return out + b'--' + boundary + b'--\r\n'
+
+
+def _txt(body, sub=b'plain', extra=b''):
+    return b'Content-Type: text/' + sub + b'\r\n' + extra + b'\r\n' + body
+
+
+# structured messages: each token sits in a part header or in a 7bit text
+# part, at nesting depth 0..3 or inside an attached message
+_EMB = b'Subject: embsubj\r\nFrom: emb@example.com\r\nMIME-Version: 1.0\r\n' + \
+    _mp(b'bEE', _txt(b'tokemb inside\r\n'))
+MIME_MSGS = [
+    dict(raw=b'Subject: m1\r\nMIME-Version: 1.0\r\n' + _mp(
+        b'bAA', _txt(b'tokdone here\r\n'),
+        _mp(b'bAB', _txt(b'tokdtwo plain\r\n'),
+            _txt(b'<b>tokhtml</b>\r\n', b'html'), sub=b'alternative')),
+         flags=[], idate=None, d=date(2023, 11, 14), sent=None),
+    dict(raw=b'Subject: m2\r\nMIME-Version: 1.0\r\n' + _mp(
+        b'bBA', _mp(b'bBB', _mp(
+            b'bBC', _txt(b'tokdthree deep\r\n', extra=b'X-Part: hdrdthree\r\n'),
+            sub=b'alternative'), sub=b'related')),
+         flags=[], idate=None, d=date(2023, 11, 14), sent=None),
+    dict(raw=b'Subject: m3\r\nMIME-Version: 1.0\r\n' + _mp(
+        b'bCA', _txt(b'cover note\r\n'),
+        b'Content-Type: message/rfc822\r\n\r\n' + _EMB),
+         flags=[], idate=None, d=date(2023, 11, 14), sent=None),
+    dict(raw=b'Subject: m4\r\n\r\ntokflat TOKDTWO\r\n',
+         flags=[], idate=None, d=date(2023, 11, 14), sent=None),
+]
+MIME_TOKENS = [b'tokdone', b'tokdtwo', b'tokhtml', b'tokdthree', b'hdrdthree',
+               b'embsubj', b'tokemb', b'tokflat', b'cover', b'absent', b'm2']
+
+
+def mime_programs():
+    A = [('body', k, t) for t in MIME_TOKENS for k in (b'TEXT', b'BODY')]
+    A += [('subj', b'SUBJECT', b'm3'), ('seq', b'2:3')]
+    P = []
+    for a in A:
+        P += [a, ('not', a)]
+    for i, a in enumerate(A):
+        for j, b in enumerate(A):
+            if i != j:
+                P += [('and', a, b), ('or', a, b), ('not', ('or', a, b))]
+    return P
+
+
 N_OLD = 3      # messages 1..3 are claimed by an earlier session: not \Recent
 
 
@@ -234,12 +288,19 @@ def programs(tier):
     return P
 
 
-def build(hidden: bool):
+def build(hidden):
     w = DictWorld(users={'alice': ('pw', ())})
     ctx = Ctx(w)
     for _ in range(3):
         si = ctx.connect()
         assert ctx.do(si, b'LOGIN alice pw').cond == 'OK'
+    if hidden == 'mime':
+        for spec in MIME_MSGS:
+            st = ctx.do(2, b'APPEND INBOX ' + lit(spec['raw']))
+            assert st.cond == 'OK', st.raw
+        assert ctx.do(0, b'SELECT INBOX').cond == 'OK'
+        return ctx, [RMsg(101 + k, spec, True)
+                     for k, spec in enumerate(MIME_MSGS)]
     for k, spec in enumerate(MSGS):
         if k == N_OLD:
             # an earlier read-write session claims \Recent of the first ones
@@ -266,6 +327,7 @@ def build(hidden: bool):
 
 
 _PROGS = None
+_MPROGS = None
 
 
 def _work(args):
@@ -274,15 +336,16 @@ def _work(args):
     evals = 0
     distinct = set()
     ctx, view = build(hidden)
+    progs = _MPROGS if hidden == 'mime' else _PROGS
     try:
         for pi in range(lo, hi):
-            p = _PROGS[pi]
+            p = progs[pi]
             txt = render(p)
             st = ctx.do(0, b'SEARCH ' + txt)
             evals += 1
             for h in ctx.harness_errors:
                 raise RuntimeError(h)
-            site = f'{"hidden" if hidden else "plain"}:{shape(p)}'
+            site = f'{hidden if hidden == "mime" else "hidden" if hidden else "plain"}:{shape(p)}'
             if st.cond != 'OK':
                 out.append(Violation('search.refused', site,
                            f'SEARCH {txt.decode()} -> {st.raw!r}'))
@@ -303,14 +366,14 @@ def _work(args):
                            f'says {want}',
                            replay={'hidden': hidden, 'program': txt}))
             # UID SEARCH must correspond through the view's seq->UID map
-            if not hidden or _digest(txt)[0] < 8:
+            if hidden is not True or _digest(txt)[0] < 8:
                 st2 = ctx.do(0, b'UID SEARCH ' + txt)
                 evals += 1
                 g2 = st2.untagged('SEARCH')
                 g2 = list(g2[0].data) if g2 else []
                 w2 = [view[s - 1].uid for s in want]
                 ok2 = sorted(g2) == w2
-                if hidden:
+                if hidden is True:
                     # the UID command revealed the expunge: rebuild the view
                     ctx.close()
                     ctx, view = build(hidden)
@@ -345,9 +408,10 @@ def shape(p) -> str:
 
 
 def run(*, tier, seed, jobs, progress, opts):
-    global _PROGS
+    global _PROGS, _MPROGS
     t0 = time.perf_counter()
     _PROGS = programs(tier)
+    _MPROGS = mime_programs()
     n = len(_PROGS)
     njobs = jobs or min(16, os.cpu_count() or 1)
     chunk = max(50, n // (njobs * 4))
@@ -355,6 +419,8 @@ def run(*, tier, seed, jobs, progress, opts):
     for hidden in (False, True):
         for lo in range(0, n, chunk):
             tasks.append((hidden, lo, min(n, lo + chunk)))
+    for lo in range(0, len(_MPROGS), 200):
+        tasks.append(('mime', lo, min(len(_MPROGS), lo + 200)))
     violations = []
     evals = 0
     dmax = 0
@@ -367,9 +433,13 @@ def run(*, tier, seed, jobs, progress, opts):
         'evaluations': evals,
         'distinct_nontrivial': len({render(p) for p in _PROGS}),
         'programs': n, 'atoms': len(atoms()),
+        'mime_programs': len(_MPROGS),
         'views': ['plain (5 messages)',
                   'hidden-expunged (another session expunged messages 2 and 3, the '
-                  'searching session has not been told)'],
+                  'searching session has not been told)',
+                  'mime (4 structured messages: tokens in text parts and part '
+                  'headers at nesting depth 0..3 and in an attached message; '
+                  'TEXT/BODY atoms, their negations and all ordered pairs)'],
         'distinct_expected_result_sets_max_per_chunk': dmax,
         'rule': ('every atom a, NOT a, NOT NOT a, (a); for ordered pairs '
                  '(all ordered pairs): a b, '
